@@ -48,3 +48,4 @@ def run(ctx, R):
     R.run(topology.check_none_bound, ctx, R, [c for c in M.nodes if c.module.name == 'streamz.core'])
     # a node that ends itself (slice reaching `end` calls destroy()) must stay an input of what it feeds
     R.run(topology.check_destroy_super, ctx, R, [c for c in M.nodes if c.module.name in ('streamz.core', 'streamz.sinks', 'streamz.sources', 'streamz.dask')])
+META['level'] += ' USER-CALL-SHAPE: map / filter / sink apply the user callable as f(x, *extra, **kwargs), starmap as f(*x, *extra, **kwargs) (positional order, on normal forms). SWAP-ATOMIC also covers a flush that loops over a snapshot of the buffer, emits in the loop and resets the buffer only afterwards.'
